@@ -332,7 +332,10 @@ func protocolPolicies(tier string) []Policy {
 		ps = append(ps,
 			thresholdPolicy(3, idPools[2][:4]),
 			thresholdPolicy(2, idPools[0][:4]),
-			cnfPolicy([]int{0b0011, 0b0101, 0b1001}, idPools[0][:4]),
+			// (a CNF in which one holder lies in EVERY maximal unqualified set, e.g. {1,2}{1,3}{1,4}, is
+			// degenerate: that holder owns no MSP row — known finding C02 #1 — and consequently DKG
+			// aborts and signing refuses for it; the protocol-level corpus uses a non-degenerate one)
+			cnfPolicy([]int{0b0011, 0b1100, 0b0101}, idPools[0][:4]),
 			hierarchicalPolicy([][2]int{{1, 2}, {3, 2}}, sortedPool(idPools[0], 4)),
 		)
 	}
